@@ -678,51 +678,25 @@ func c08OpsTok(ops []string) string {
 	return strings.Join(parts, ",")
 }
 
-// The two places where the model of the current code departs from the
-// specification (both refuted in Properties/C08.v and reported by the
-// predicate of this harness).  When /repo is repaired, flip the constant: the
-// correspondence then runs against the repaired model.
-const (
-	// file.go SeekToRow without offset index: f.index restarts at 1 when the
-	// chunk has a dictionary page (machine lazy1 / noidx1 of the model).
-	c08NoIndexSeekCountsDictionaryPage = true
-	// row_group.go rowGroupRows.Reset leaves r.rowIndex untouched.
-	c08ResetForgetsRowIndex = false
-)
-
 // c08Request is the oracle request that models the case (the faithful model of
 // the current code for page and row-group readers, the position specification
-// for the file readers, whose extra layers are not modelled).  "" = no model:
-// in async mode the background reader executes a seek when it gets to it, so
-// whether a seek issued before the offset index was loaded runs with or
-// without the index depends on the schedule; the two differ only in the
-// page counter of chunks with a dictionary page.
+// for the file readers, whose extra layers are not modelled).
 func c08Request(cs *c08Case, b *c08Built) string {
 	switch cs.Target {
 	case "pages":
 		m := "idx"
 		if cs.Open.SkipIndex {
-			m = "lazy0"
-			if b.dict[cs.RG][cs.Col] && c08NoIndexSeekCountsDictionaryPage {
-				m = "lazy1"
-				if cs.Open.Async && c08Has(cs.Ops, "l") {
-					return ""
-				}
-			}
+			m = "lazy"
 		}
 		return "c08.pages " + m + " " + c08Hex(b.layout[cs.RG][cs.Col]) + " " + c08OpsTok(cs.Ops)
 	case "rows":
 		m := "idx"
 		if cs.Open.SkipIndex {
-			m = "noidx0"
+			m = "noidx"
 		}
-		clears := "0"
-		if c08ResetForgetsRowIndex {
-			clears = "1"
-		}
-		return "c08.rows " + m + " " + clears + " " + c08Hex(b.layout[cs.RG][0]) + " " + c08OpsTok(cs.Ops)
+		return "c08.rows " + m + " " + c08Hex(b.layout[cs.RG][0]) + " " + c08OpsTok(cs.Ops)
 	default:
-		return "c08.rows spec 0 " + c08Hex([]int64{b.total}) + " " + c08OpsTok(cs.Ops)
+		return "c08.rows spec " + c08Hex([]int64{b.total}) + " " + c08OpsTok(cs.Ops)
 	}
 }
 
@@ -767,9 +741,6 @@ func c08Check(c *core.Ctx, cs *c08Case) string {
 	}
 	if b != nil && c.HasOracle() {
 		req := c08Request(cs, b)
-		if req == "" {
-			return ""
-		}
 		want := c.Ask(req)
 		got := strings.Join(res.outs, ",")
 		if len(res.outs) == 0 {
